@@ -12,7 +12,7 @@ structure St where
   omax : Nat := 0
 
 def showTok (r : Option Nat) : String :=
-  match r with | some 0 => "ok null" | some v => s!"ok {v}" | none => "abort"
+  match r with | some 0 => "ok null" | some v => (if v = 2 ^ 64 then "ok null" else s!"ok {v}") | none => "abort"
 
 def insertSorted (x : Nat) : List Nat → List Nat
   | [] => [x]
@@ -26,6 +26,11 @@ def step (s : St) (t : List String) : Option (St × String) :=
   | ["treg", p] => do
       let p ← p.toNat?
       match s.map.register s.max p with
+      | none => pure (s, "abort")
+      | some (tk, m') => pure ({ s with map := m', live := insertSorted tk s.live }, s!"ok {tk}")
+  | ["tregn"] =>
+      -- a null application pointer is registered like any other value (sentinel 2^64 in the model; printed as `null`)
+      match s.map.register s.max (2 ^ 64) with
       | none => pure (s, "abort")
       | some (tk, m') => pure ({ s with map := m', live := insertSorted tk s.live }, s!"ok {tk}")
   | ["trel", tk] => do
